@@ -2,6 +2,7 @@
 //! parent orchestration (process isolation, replays, known-finding probes, evidence).
 
 pub mod findings;
+pub mod node;
 pub mod parent;
 pub mod tape;
 pub mod worker;
